@@ -28,7 +28,7 @@ from . import common
 ID = "C10"
 LEVEL = "exploration"
 U = 125_000
-RULE = ("seeded histories on a dyadic time grid: 60% component level (1..40 ops, budgets 0..6, windows 1/8..10 s), 40% "
+RULE = ("seeded histories on a dyadic time grid: 60% component level (1..40 ops incl. re-tuning max_retries, budgets 0..9, windows 1/8..10 s), 40% "
         "policy level (2-4 calls on distinct entry points sharing one Budget, sync sequence or async concurrent); distinct "
         "by (config, op/trace shape) hash; non-trivial = at least one refusal or one grant ageing out")
 COMPONENTS = {"real": ["redress.budget.Budget", "policy level: redress.policy.* retry loop (state._handle_failure budget gate)"],
@@ -65,6 +65,7 @@ def gen(seed, tier="quick"):
            "budget": {"max": r.choice([0, 1, 2, 3, 4]), "window_us": w}, "breaker": None}
     calls = []
     handler = r.random() < 0.25
+    aborting = r.random() < 0.25
     for i in range(r.randint(2, 4)):
         entry = r.choice(["Retry", "Policy", "RetryPolicy", "Retry.from_config", "decorator"])
         how = "call" if entry == "decorator" else r.choice(["call", "execute"])
@@ -83,10 +84,14 @@ def gen(seed, tier="quick"):
             c["start_us"] = r.choice([0, 0, U, 2 * U, w])
         else:
             c["before"] = [["adv", r.choice([0, U, w, w - U, w // 2])]]
+        if r.random() < 0.15:
+            c["ext_consume"] = [r.randrange(0, 3)]      # a consumer outside these policies takes a token mid-decision
+        if aborting and r.random() < 0.5:
+            c["abort_at"] = r.randint(1, 3 * cfg["max_attempts"])     # abort_if answers True from this poll on
         calls.append(c)
     scn = {"kind": "retry", "grid": U, "seed": seed, "mode": mode, "entry": "Retry", "how": "call", "cfg": cfg,
            "place": {"handler": "policy" if handler else "none", "before_sleep": "none", "sleeper": r.choice(["policy", "none"]), "att_hooks": "none"},
-           "hooks": {"on_metric": True, "on_log": False, "operation": "op", "timeline": None, "abort_if": False},
+           "hooks": {"on_metric": True, "on_log": False, "operation": "op", "timeline": None, "abort_if": aborting},
            "clock": {"base_us": r.choice([0, 8 * U])}, "calls": calls}
     if conc:
         scn["concurrent"] = True
@@ -168,8 +173,8 @@ def execute(scn):
             if inf.n_retry and len(inf.granted) > 1:
                 viol.append(V("R3", "more than one token taken for one retry", {"call": cid, "attempt": inf.k}))
             exhausted = [e for e in inf.post if e["ev"] == "METRIC" and e["event"] == "budget_exhausted"]
-            if exhausted and not inf.refused:
-                viol.append(V("R3", "budget_exhausted reported without a refusal", {"call": cid, "attempt": inf.k}))
+            if exhausted and not inf.refused and "BUDGET_EXHAUSTED" not in inf.holds:
+                viol.append(V("R3", "budget_exhausted reported although the window is not full", {"call": cid, "attempt": inf.k}))
     refused = sum(1 for e in env.trace if e["ev"] == "BUDGET" and not e["granted"])
     if refused:
         probes["refusals"] = refused
